@@ -257,3 +257,67 @@ pub fn run_crypto_case(base: &Case, hr: &[RData], key: &Key, l: &mut Local) {
         }
     }
 }
+
+/// Key tag family: DNSKEY RDATA = flags | 3 | algorithm | key with `len` key octets in one of six
+/// fill patterns (zeros, 0xff, counting, leading zeros, RSA-shaped with a zero-padded modulus,
+/// alternating); hickory's `DNSKEY::calculate_key_tag` (decoded from the wire and built through
+/// the constructor) against RFC 4034 Appendix B.
+pub fn run_keytag_case(flags: u16, alg: u8, len: usize, pattern: u8, l: &mut Local) {
+    use hickory_proto::serialize::binary::BinDecoder;
+    let key: Vec<u8> = match pattern {
+        0 => vec![0u8; len],
+        1 => vec![0xff; len],
+        2 => (0..len).map(|i| (i * 7 + 1) as u8).collect(),
+        3 => (0..len).map(|i| if i < 3 { 0 } else { 0xff }).collect(),
+        4 => {
+            // RFC 3110: exponent length 3, exponent 01 00 01, modulus with two leading zero octets
+            let mut k = vec![3u8, 1, 0, 1, 0, 0];
+            k.extend((0..len.saturating_sub(6)).map(|i| 0xc3u8.wrapping_add(i as u8)));
+            k.truncate(len);
+            k
+        }
+        _ => (0..len).map(|i| if i % 2 == 0 { 0xff } else { 0 }).collect(),
+    };
+    let mut rd = flags.to_be_bytes().to_vec();
+    rd.push(3);
+    rd.push(alg);
+    rd.extend_from_slice(&key);
+    let want = key_tag(&rd);
+    let case = || json!({"family": "keytag", "flags": flags, "algorithm": alg, "key_len": len, "pattern": pattern, "rdata_head": vcore::hex::enc(&rd[..rd.len().min(24)])});
+    l.eval();
+    let dec = catch(|| RData::read(BinDecoder::new(&rd), RecordType::DNSKEY).map_err(|e| e.to_string()));
+    let dnskey = match dec {
+        Err(p) => {
+            l.violation(&format!("panic:{}", vcore::short_loc(&p.loc)), &p.msg, case);
+            return;
+        }
+        Ok(Err(_)) => {
+            l.outcome("obs:keytag:dnskey-rdata-rejected-by-decoder");
+            return;
+        }
+        Ok(Ok(RData::DNSSEC(hickory_proto::dnssec::rdata::DNSSECRData::DNSKEY(k)))) => k,
+        Ok(Ok(_)) => {
+            l.outcome("obs:keytag:not-decoded-as-dnskey");
+            return;
+        }
+    };
+    let built = DNSKEY::with_flags(flags, PublicKeyBuf::new(key.clone(), Algorithm::from_u8(alg)));
+    for (who, k) in [("decoded", &dnskey), ("constructed", &built)] {
+        match catch(|| k.calculate_key_tag().map_err(|e| e.to_string())) {
+            Err(p) => l.violation(&format!("panic:{}", vcore::short_loc(&p.loc)), &p.msg, case),
+            Ok(Err(e)) => l.violation(&format!("keytag-error:{who}"), &e, case),
+            Ok(Ok(t)) => {
+                if t != want {
+                    let scene = if rd.len() % 2 == 1 { "odd-length-rdata" } else { "even-length-rdata" };
+                    l.violation(&format!("keytag-differs:{who}:{scene}"), &format!("hickory {t}, RFC 4034 Appendix B {want}"), case);
+                } else {
+                    l.outcome("keytag:equal");
+                    if rd.len() % 2 == 1 {
+                        l.outcome("keytag:equal:odd-length-rdata");
+                    }
+                    l.nontrivial(fnv64(&rd) ^ 0x6b657974);
+                }
+            }
+        }
+    }
+}
